@@ -6,6 +6,7 @@ import (
 	"go/types"
 	"strings"
 	"unicode/utf8"
+	"unsafe"
 
 	"golang.org/x/tools/go/ssa"
 )
@@ -57,13 +58,19 @@ type Engine struct {
 	own    bool // whether the current prefix belongs to this shard (valid while depth < shardDepth)
 }
 
+// vkey: the address of the SSA value (all ssa.Value implementations are pointers), a faster map
+// key than the interface itself.
+func vkey(v ssa.Value) uintptr {
+	return (*[2]uintptr)(unsafe.Pointer(&v))[1]
+}
+
 func (e *Engine) info(fn *ssa.Function) *fnInfo {
 	if fi, ok := e.fnInfos[fn]; ok {
 		return fi
 	}
-	fi := &fnInfo{idx: map[ssa.Value]int{}}
+	fi := &fnInfo{idx: map[uintptr]int{}}
 	add := func(v ssa.Value) {
-		fi.idx[v] = fi.n
+		fi.idx[vkey(v)] = fi.n
 		fi.n++
 	}
 	for _, p := range fn.Params {
@@ -99,7 +106,7 @@ func (e *Engine) get(fr *Frame, v ssa.Value) Value {
 	case *ssa.Global:
 		panic("global must be resolved via getv")
 	}
-	i, ok := fr.info.idx[v]
+	i, ok := fr.info.idx[vkey(v)]
 	if !ok {
 		panic(fmt.Sprintf("unknown SSA value %s in %s", v.Name(), fr.fn))
 	}
@@ -112,7 +119,7 @@ func (e *Engine) get(fr *Frame, v ssa.Value) Value {
 }
 
 func (e *Engine) set(fr *Frame, v ssa.Value, val Value) {
-	fr.env[fr.info.idx[v]] = val
+	fr.env[fr.info.idx[vkey(v)]] = val
 }
 
 func (e *Engine) getv(st *State, fr *Frame, v ssa.Value) Value {
@@ -150,10 +157,10 @@ func (e *Engine) pushFrame(st *State, fn *ssa.Function, args []Value, fv []Value
 		panic(fmt.Sprintf("arity mismatch calling %s: %d args, %d params", fn, len(args), len(fn.Params)))
 	}
 	for i, p := range fn.Params {
-		fr.env[fi.idx[p]] = args[i]
+		fr.env[fi.idx[vkey(p)]] = args[i]
 	}
 	for i, f := range fn.FreeVars {
-		fr.env[fi.idx[f]] = fv[i]
+		fr.env[fi.idx[vkey(f)]] = fv[i]
 	}
 	st.frames = append(st.frames, fr)
 	if len(st.frames) > e.maxDepth {
